@@ -122,10 +122,10 @@ func runProperty(w *World, prop string, cfg RunConfig, only string) *checkOutcom
 				continue
 			}
 			tagged := 0
-			var vac *Obligation
+			var vac []*Obligation
 			for _, o := range r.Obls {
 				if o.Kind == "vacuity" {
-					vac = o
+					vac = append(vac, o)
 					continue
 				}
 				if hasTag(o.Tags, prop) {
@@ -134,9 +134,11 @@ func runProperty(w *World, prop string, cfg RunConfig, only string) *checkOutcom
 					tagged++
 				}
 			}
-			if tagged > 0 && vac != nil {
-				counts[vac] = r.Axioms
-				sel = append(sel, vac)
+			if tagged > 0 {
+				for _, v := range vac {
+					counts[v] = r.Axioms
+					sel = append(sel, v)
+				}
 			}
 			if tagged > 0 {
 				oc.funcs = append(oc.funcs, name)
@@ -170,9 +172,18 @@ func runProperty(w *World, prop string, cfg RunConfig, only string) *checkOutcom
 	// group path instances by site
 	bySite := map[string]*siteResult{}
 	var order []string
+	// a canary site is contradictory only if every path instance of it is
+	vacAlive := map[string]bool{}
+	for _, o := range sel {
+		if o.Kind == "vacuity" && o.Verdict != VUnsat {
+			vacAlive[o.Name] = true
+		}
+	}
+	vacSeen := map[string]bool{}
 	for _, o := range sel {
 		if o.Kind == "vacuity" {
-			if o.Verdict == VUnsat {
+			if !vacAlive[o.Name] && !vacSeen[o.Name] {
+				vacSeen[o.Name] = true
 				oc.vacuityBad = append(oc.vacuityBad, o.Name)
 			}
 			continue
@@ -346,7 +357,7 @@ func cmdCheck(args []string) int {
 	var undecided []string
 	if len(oc.vacuityBad) > 0 {
 		for _, v := range oc.vacuityBad {
-			undecided = append(undecided, "contradictory precondition: "+v)
+			undecided = append(undecided, "contradictory precondition or unreachable loop body (the proof would be vacuous): "+v)
 		}
 	}
 	if oc.total == 0 {
@@ -385,20 +396,20 @@ func cmdCheck(args []string) int {
 		"coverage": map[string]any{
 			"obligations": len(oc.sites) - len(knownHit), "discharged": discharged,
 			"obligations_including_known_findings": len(oc.sites),
-			"obligation_instances_over_paths": oc.total,
-			"checker_cmd":                     fmt.Sprintf("bin/govc check -prop %s -tier %s (VC generation over the typed AST of %s with -tags verif; z3-new 5.1.0, then z3 4.8.12 and cvc5 raced)", prop, tier, repo),
-			"trusted_base":                    trusted,
-			"samples":                         samples,
-			"functions_under_contract":        oc.funcs,
-			"inlined_functions":               inl,
-			"by_solver":                       oc.bySolver,
-			"generation_ms":                   oc.genMs,
-			"solver_wall_ms":                  oc.solveMs,
-			"known_finding_obligations":       knownHit,
-			"fixed_entries":                   fixed,
-			"undecided":                       undecided,
-			"failed_obligations":              len(oc.sites) - proved - len(knownHit),
-			"explanation":                     propertyExplanation[prop],
+			"obligation_instances_over_paths":      oc.total,
+			"checker_cmd":                          fmt.Sprintf("bin/govc check -prop %s -tier %s (VC generation over the typed AST of %s with -tags verif; z3-new 5.1.0, then z3 4.8.12 and cvc5 raced)", prop, tier, repo),
+			"trusted_base":                         trusted,
+			"samples":                              samples,
+			"functions_under_contract":             oc.funcs,
+			"inlined_functions":                    inl,
+			"by_solver":                            oc.bySolver,
+			"generation_ms":                        oc.genMs,
+			"solver_wall_ms":                       oc.solveMs,
+			"known_finding_obligations":            knownHit,
+			"fixed_entries":                        fixed,
+			"undecided":                            undecided,
+			"failed_obligations":                   len(oc.sites) - proved - len(knownHit),
+			"explanation":                          propertyExplanation[prop],
 		},
 		"assumptions": trusted,
 		"wall_s":      time.Since(start).Seconds(),
@@ -441,7 +452,9 @@ type ReplayResult struct {
 	Output    string `json:"output,omitempty"`
 }
 
-func tryReplay(w *World, o *Obligation, repo string) *ReplayResult { return replayObligation(w, o, repo) }
+func tryReplay(w *World, o *Obligation, repo string) *ReplayResult {
+	return replayObligation(w, o, repo)
+}
 
 func specMentionsTag(sp *FuncSpec, p string) bool {
 	if sp == nil {
